@@ -1,6 +1,9 @@
 import EzdxfVerif.Model.Encoding
+import EzdxfVerif.Model.EncodingExt
 import EzdxfVerif.Gen.EncodingTables
+import EzdxfVerif.Gen.CjkTables
 import Drivers.Proto
+import Std.Data.HashMap
 open EzdxfVerif EzdxfVerif.Encoding Proto
 
 namespace C09Driver
@@ -22,8 +25,36 @@ def parseAux (s : String) : Option (List (Nat × Bytes)) :=
       | _, _ => none
     | _ => none)
 
-def codecOf (c : String) (aux : String) : Option Codec :=
+/-- first-entry-wins hash map of a table list: extensionally `tabLookup` / `tabEncKey` -/
+def firstWins (l : List Nat) (k v : Nat → Nat) : Std.HashMap Nat Nat :=
+  l.foldl (fun m e => m.insertIfNew (k e) (v e)) {}
+
+/-- `dbcsCodec T` with the three list look-ups replaced by hash maps built first-entry-wins from the same lists
+    (the model functions `dbcsEncWith` / `dbcsDecWith` themselves are the ones of Model/Encoding.lean) -/
+def fastDbcs (T : DbcsTab) : Codec :=
+  let d := firstWins T.dec ekey ecp
+  let g := firstWins T.encGood ecp ekey
+  let l := firstWins T.encLossy ecp ekey
+  { enc := dbcsEncWith (fun x => g[x]?) (fun x => l[x]?)
+    dec := dbcsDecWith (isLeadB T.leads) (fun k => d[k]?)
+    grouped := false }
+
+abbrev Codecs := List (String × Codec)
+
+/-- `mifPages` with the decoder look-up of every table replaced by its first-entry-wins hash map -/
+def fastPages : Nat → Option (Bytes → Option Str) :=
+  let decs := Gen.CjkTables.dbcsTabs.map (fun T =>
+    (T.name, let d := firstWins T.dec ekey ecp; dbcsDecStrictWith (isLeadB T.leads) (fun k => d[k]?)))
+  fun k => match Gen.EncodingTables.mifCodePage.find? (fun p => p.1 = k) with
+    | some p => (decs.find? (fun q => q.1 = p.2)).map (·.2)
+    | none => none
+
+def dbcsCodecs : Codecs :=
+  Gen.CjkTables.dbcsTabs.map (fun T => (String.ofList (T.name.map Char.ofNat), fastDbcs T))
+
+def codecOf (dc : Codecs) (c : String) (aux : String) : Option Codec :=
   if c = "ascii" then some asciiCodec
+  else if let some p := dc.find? (fun p => p.1 = c) then some p.2
   else if c = "utf8" then some utf8Codec
   else if c = "ext0" then (parseAux aux).map (extCodec · false)
   else if c = "ext1" then (parseAux aux).map (extCodec · true)
@@ -38,7 +69,7 @@ def fmtOf (f : String) : Option Fmt :=
   if f = "src" then some G else if f = "fixed" then some fixedFmt
   else if f = "legacy" then some legacyFmt else none
 
-def step (line : String) : String :=
+def step (dc : Codecs) (mp : Nat → Option (Bytes → Option Str)) (line : String) : String :=
   match line.splitOn "|" with
   | ["fmt"] => if G = fixedFmt then "fixed" else if G = legacyFmt then "legacy" else "other"
   | ["handler", f, s] => match fmtOf f, parseNats s with
@@ -47,13 +78,21 @@ def step (line : String) : String :=
       | .ok (.bytes r) => "bytes " ++ showNats r
       | .error e => "err " ++ showErr e
     | _, _ => "bad-op"
-  | ["enc", f, c, s, aux] => match fmtOf f, codecOf c aux, parseNats s with
+  | ["enc", f, c, s, aux] => match fmtOf f, codecOf dc c aux, parseNats s with
     | some f, some c, some t => showBytes (encode c f t)
     | _, _, _ => "bad-op"
-  | ["dec", c, b] => match codecOf c "", parseNats b with
+  | ["encs", f, c, ss] => match fmtOf f, codecOf dc c "", (ss.splitOn ";").mapM parseNats with
+    | some f, some c, some ts =>
+      -- one `write()` per piece: the error handler never sees a run that spans two pieces
+      showBytes (ts.foldl (fun acc t => match acc, encode c f t with
+        | .ok a, .ok b => .ok (a ++ b)
+        | .error e, _ => .error e
+        | _, .error e => .error e) (.ok []))
+    | _, _, _ => "bad-op"
+  | ["dec", c, b] => match codecOf dc c "", parseNats b with
     | some c, some t => showNats (c.dec t)
     | _, _ => "bad-op"
-  | ["rt", f, c, s] => match fmtOf f, codecOf c "", parseNats s with
+  | ["rt", f, c, s] => match fmtOf f, codecOf dc c "", parseNats s with
     | some f, some c, some t => match encode c f t with
       | .ok b => "ok " ++ showNats (decodeDxfUnicode (c.dec b))
       | .error e => "encerr " ++ showErr e
@@ -71,6 +110,34 @@ def step (line : String) : String :=
       | .text r => "ok " ++ showNats r
       | .mif => "mif"
     | none => "bad-op"
+  | ["slowenc", c, s] => match Gen.CjkTables.dbcsTabs.find? (fun T => T.name = name c), parseNats s with
+    | some T, some t => showBytes (encode (dbcsCodec T) G t)
+    | _, _ => "bad-op"
+  | ["slowdec", c, b] => match Gen.CjkTables.dbcsTabs.find? (fun T => T.name = name c), parseNats b with
+    | some T, some t => showNats ((dbcsCodec T).dec t)
+    | _, _ => "bad-op"
+  | ["unmif", s] => match parseNats s with
+    | some t => showNats (decodeMifWith mp t) | none => "bad-op"
+  | ["slowunmif", s] => match parseNats s with
+    | some t => showNats (decodeMifWith (mifPages Gen.CjkTables.dbcsTabs Gen.EncodingTables.mifCodePage) t) | none => "bad-op"
+  | ["mifsplit", s] => match parseNats s with
+    | some t => ";".intercalate ((mifSplit [] t).map showNats) | none => "bad-op"
+  | ["recovercode", k, s] => match k.toNat?, parseNats s with
+    | some k, some t => showNats (recoverTagValue mp k t) | _, _ => "bad-op"
+  | ["recovertext", s] => match parseNats s with
+    | some t => showNats (recoverText mp t) | none => "bad-op"
+  | ["lf2crlf", b] => match parseNats b with
+    | some t => showNats (lfToCrlf t) | none => "bad-op"
+  | ["crlf2lf", b] => match parseNats b with
+    | some t => showNats (crlfToLf t) | none => "bad-op"
+  | ["detect", v, s] => match parseNats v, parseNats s with
+    | some v, some t => showNats (detectEncoding Gen.EncodingTables.codepageToEncoding v t) | _, _ => "bad-op"
+  | ["detectrec", v, s] => match parseNats v, parseNats s with
+    | some v, some t => showNats (detectRecover Gen.EncodingTables.codepageToEncoding v t) | _, _ => "bad-op"
+  | ["detectbin", v, b] => match parseNats v, parseNats b with
+    | some v, some t => showNats (detectEncoding Gen.EncodingTables.codepageToEncoding v (binScan t)) | _, _ => "bad-op"
+  | ["binname", b] => match parseNats b with
+    | some t => showNats (binName t) | none => "bad-op"
   | ["toenc", s] => match parseNats s with
     | some t => showNats (toencoding Gen.EncodingTables.codepageToEncoding t) | none => "bad-op"
   | ["tocp", s] => match parseNats s with
@@ -79,4 +146,7 @@ def step (line : String) : String :=
 
 end C09Driver
 
-def main : IO Unit := Proto.run C09Driver.step
+def main : IO Unit := do
+  let dc := C09Driver.dbcsCodecs
+  let mp := C09Driver.fastPages
+  Proto.run (C09Driver.step dc mp)
